@@ -140,7 +140,9 @@ def substitute(e, m):
         return ("tuple", tuple(substitute(x, m) for x in e[1]))
     if k == "call":
         return (e[0], e[1], tuple(substitute(x, m) for x in e[2])) + tuple(e[3:])
-    if k in ("field", "downcast", "is", "cast"):
+    if k == "is":
+        return mk_is(substitute(e[1], m), e[2])
+    if k in ("field", "downcast", "cast"):
         if k == "cast":
             return (k, e[1], substitute(e[2], m))
         return (k, substitute(e[1], m), e[2])
@@ -158,6 +160,18 @@ def substitute(e, m):
     if k == "conv":
         return (k, e[1], substitute(e[2], m))
     return e
+
+
+def mk_len(x):
+    if x[0] == "vec":
+        return const("int", len(x[1]))
+    return ("len", x)
+
+
+def mk_is(x, variant):
+    if x[0] in ("enumc", "agg"):
+        return TRUE if x[2] == variant else FALSE
+    return ("is", x, variant)
 
 
 def mk_lt(a, b):
@@ -275,9 +289,9 @@ def norm_call(res_inst, res, args, fn=None):
                 return ("conv", short(res), args[0]) if fn is not None and not _same_ty_conv(fn) else args[0]
             return args[0]
     if _LEN.match(p):
-        return ("len", args[0])
+        return mk_len(args[0])
     if _IS_EMPTY.match(p):
-        return mk_eq(("len", args[0]), const("int", 0))
+        return mk_eq(mk_len(args[0]), const("int", 0))
     if _INDEX.match(p):
         return ("index", args[0], args[1])
     m = _PEQ.match(p)
@@ -297,7 +311,7 @@ def norm_call(res_inst, res, args, fn=None):
         return mk_not(mk_lt(a, b))
     m = _IS_SOME.match(p)
     if m:
-        e = ("is", args[0], "Some")
+        e = mk_is(args[0], "Some")
         return e if m.group(1) == "is_some" else mk_not(e)
     m = _IS_OK.match(p)
     if m:
@@ -420,13 +434,15 @@ class Evaluator:
 
     def project(self, v, projs, heap=None, get=None):
         self._get = get
-        for e in projs:
-            if heap:
+        # the heap maps *places* to stored values; it is consulted only when memory is read through a
+        # projection (a value already loaded into a local keeps the value it had when it was loaded)
+        for i, e in enumerate(projs):
+            if heap and i > 0:
                 hv = heap.get(v)
                 if hv is not None:
                     v = hv
             v = self._project1(v, e)
-        if heap:
+        if heap and projs:
             hv = heap.get(v)
             if hv is not None:
                 v = hv
@@ -505,7 +521,7 @@ class Evaluator:
                     return const("int", -a[2])
                 return ("neg", a)
             if rv["op"] == "PtrMetadata":
-                return ("len", a)
+                return mk_len(a)
             return (rv["op"].lower(), a)
         if k == "cast":
             a = self.operand(rv["op"], get)
@@ -706,6 +722,8 @@ def show(e):
         return "[%s; %s]" % (show(e[1]), e[2])
     if k == "aggother":
         return "%s[%s]" % (e[1], ", ".join(show(x) for x in e[2]))
+    if k == "vec":
+        return "vec![%s]" % ", ".join(show(x) for x in e[1])
     if k == "try":
         return "try(%s)" % show(e[1])
     if k == "propagate":
@@ -799,12 +817,7 @@ class Walker:
         return get
 
     def _read_place(self, p, st):
-        get = self._get(st)
-        v = self.ev.place(p, get)
-        hv = st["heap"].get(v)
-        if hv is not None:
-            return hv
-        return v
+        return self.ev.place(p, self._heap_get(st))
 
     def _assign(self, place, val, st, path, bb):
         if not place["p"]:
@@ -899,6 +912,15 @@ class Walker:
                 if self.assume and rr is not None and short(rr) in self.assume:
                     val = self.assume[short(rr)]
                 args = tuple(self.ev.operand(a, self._heap_get(st)) for a in t["args"])
+                if rr is not None and "box_assume_init_into_vec_unsafe" in rr and args:
+                    # vec![a, b, ..]: the elements were stored through the uninitialised box
+                    for hk, hvv in st["heap"].items():
+                        if isinstance(hvv, tuple) and hvv[0] == "aggother" and hvv[1] == "array":
+                            root = hk
+                            while isinstance(root, tuple) and root[0] in ("field", "index", "downcast", "proj"):
+                                root = root[1]
+                            if root == args[0]:
+                                val = ("vec", hvv[2])
                 path.effects.append(("call", short(rr) if rr else "<indirect>", args, bb, val))
                 # &mut arguments or impure callee: bump epoch
                 if self._mutating(t, st, rr):
@@ -983,6 +1005,12 @@ class Walker:
             neg = True
         targets = t["targets"]
         ty = t["ty"]
+        if atom[0] == "is":
+            kv = st["known"].get(("variant", atom[1]))
+            if isinstance(kv, tuple) and kv[0] == "variant":
+                atom = TRUE if kv[1] == atom[2] else FALSE
+            elif isinstance(kv, tuple) and kv[0] == "variants" and atom[2] not in kv[1]:
+                atom = FALSE
         # constant?
         cv = None
         if atom[0] == "const" and atom[1] in ("int", "bool", "char"):
